@@ -468,6 +468,49 @@ func TraceLinesMulti(res *MResult) []string {
 	return lines
 }
 
+// TraceLinesWorld renders the whole scenario, interleaved as it happened, for the Lean world model: every request and
+// callback tagged with its client, and after every successful sync the assignment the coordinator answered with.
+func TraceLinesWorld(res *MResult) []string {
+	type item struct {
+		seq   int
+		lines []string
+	}
+	var items []item
+	for _, e := range res.Events {
+		r1 := &Result{Sc: &Scenario{}, Events: []HEvent{e}}
+		ls := TraceLines(r1)[1:]
+		if len(ls) == 1 {
+			items = append(items, item{e.Seq, []string{fmt.Sprintf("gw %d %s", e.Session/100, ls[0])}})
+		}
+	}
+	for _, r := range res.Reqs {
+		w := whoOfClient(r.ClientID)
+		if w < 0 {
+			continue
+		}
+		r1 := &Result{Sc: &Scenario{}, Reqs: []sarama.VerifSimGroupReq{r}}
+		ls := TraceLines(r1)[1:]
+		if len(ls) != 1 {
+			continue
+		}
+		out := []string{fmt.Sprintf("gw %d %s", w, ls[0])}
+		if r.Kind == "sync" && r.Verdict == sarama.ErrNoError && !r.Dropped {
+			ps := "-"
+			if len(r.Assigned["t"]) > 0 {
+				ps = hlib.Ints32(r.Assigned["t"])
+			}
+			out = append(out, fmt.Sprintf("gw %d plan %s", w, ps))
+		}
+		items = append(items, item{r.Seq, out})
+	}
+	sort.SliceStable(items, func(i, j int) bool { return items[i].seq < items[j].seq })
+	lines := []string{"gw reset"}
+	for _, it := range items {
+		lines = append(lines, it.lines...)
+	}
+	return lines
+}
+
 const RuleMulti = "multi-member group scenario = f(seed): 2-3 real members with start delays 0-150 ms and life times 150-600 ms, each looping Consume until its life time ends, then Close; 1-5 partitions with logs 0-12, pre-set committed offsets; coordinator = join barrier + held syncs + rebalance on join/leave/expiry, fault script on join/sync/heartbeat/commit"
 
 // RunAllMulti runs n multi-member scenarios (seeds derived from the run seed).
@@ -527,7 +570,10 @@ func RunAllMulti(run *hlib.Run, sigPrefixes []string, n int) {
 				both++
 			}
 		}
-		run.Count(fmt.Sprintf("multi-sessions-with-setup=%d", min(setups, 12)))
+		if setups > 12 {
+			setups = 12
+		}
+		run.Count(fmt.Sprintf("multi-sessions-with-setup=%d", setups))
 		if both > 0 {
 			run.Count("multi-generation-shared-by-several-members")
 			run.Nontrivial(fmt.Sprintf("multi|%d|%s|%d|%v", len(sc.Members), sc.Strategy, sc.Partitions, sc.AutoCommit))
@@ -536,6 +582,9 @@ func RunAllMulti(run *hlib.Run, sigPrefixes []string, n int) {
 			run.Count("multi-member-expelled")
 		}
 		for _, l := range TraceLinesMulti(res) {
+			run.Emit(l, "ok")
+		}
+		for _, l := range TraceLinesWorld(res) {
 			run.Emit(l, "ok")
 		}
 		for _, f := range CheckMulti(res) {
